@@ -473,13 +473,16 @@ class Oracle:
         # stop() followed by start() during a live session
         # (Esp.C18.c18_alternate_unless_restarted: in the model this is the only way the alternation can fail; `pd` = session
         # ends not reported yet)
-        def is_bad(snap):
+        # the recorded finding is the session-live case; an alternation failure after "end unreported" only (none exists on the
+        # unchanged tree) gets its own key and is reported
+        def is_bad(snap, live_only):
             f = dict(x.split("=") for x in snap.split())
-            return f["st"] == "DISCONNECTED" and f["stopped"] == "0" and (f["cli"] == "live" or int(f.get("pd", 0)) > 0)
-        bad = any(is_bad(snap) for _, _, snap in trace)
+            return f["st"] == "DISCONNECTED" and f["stopped"] == "0" and (f["cli"] == "live" or (not live_only and int(f.get("pd", 0)) > 0))
+        bad = any(is_bad(snap, True) for _, _, snap in trace)
+        bad_pd = any(is_bad(snap, False) for _, _, snap in trace)
         for a, b_ in zip(cb_seq, cb_seq[1:]):
             if a == b_:
-                self.problems.append(("c18:alternation" + (":restarted-while-session-live" if bad else ""), len(trace) - 1, f"on_connect / on_disconnect sequence {''.join(cb_seq)} does not alternate"))
+                self.problems.append(("c18:alternation" + (":restarted-while-session-live" if bad else (":restarted-before-end-reported" if bad_pd else "")), len(trace) - 1, f"on_connect / on_disconnect sequence {''.join(cb_seq)} does not alternate"))
                 break
         if cb_seq and cb_seq[0] != "c":
             self.problems.append(("c18:alternation", 0, "on_disconnect before any on_connect"))
